@@ -126,6 +126,39 @@ pub fn unprotect() -> usize {
     PROT_HITS.with(|c| c.replace(0))
 }
 
+// ------------------------------------------------------------------ guarded arena
+
+/// Read-write pages followed by one inaccessible page: a slice placed at the END of the
+/// accessible part cannot be over-read by a single byte without a SIGSEGV (which kills the
+/// worker and is attributed to the type being explored).
+pub struct GuardArena { base: *mut u8, len: usize }
+
+impl GuardArena {
+    pub fn new(cap: usize) -> Self {
+        let pages = cap.div_ceil(4096).max(1);
+        let total = (pages + 1) * 4096;
+        let base = unsafe { libc::mmap(core::ptr::null_mut(), total, libc::PROT_READ | libc::PROT_WRITE, libc::MAP_PRIVATE | libc::MAP_ANONYMOUS, -1, 0) };
+        assert!(base != libc::MAP_FAILED, "mmap of the guarded arena failed");
+        let r = unsafe { libc::mprotect((base as *mut u8).add(pages * 4096) as *mut libc::c_void, 4096, libc::PROT_NONE) };
+        assert_eq!(r, 0, "mprotect of the guard page failed");
+        GuardArena { base: base as *mut u8, len: pages * 4096 }
+    }
+    pub fn cap(&self) -> usize { self.len }
+    /// Copy `bytes` so that they end exactly where the accessible part ends.
+    pub fn place_at_end(&mut self, bytes: &[u8]) -> &[u8] {
+        assert!(bytes.len() <= self.len);
+        let off = self.len - bytes.len();
+        unsafe {
+            core::ptr::copy_nonoverlapping(bytes.as_ptr(), self.base.add(off), bytes.len());
+            core::slice::from_raw_parts(self.base.add(off), bytes.len())
+        }
+    }
+}
+
+impl Drop for GuardArena {
+    fn drop(&mut self) { unsafe { libc::munmap(self.base as *mut libc::c_void, self.len + 4096); } }
+}
+
 // ------------------------------------------------------------------ arena
 
 /// A 4096-aligned byte arena in which a stream can be placed at a chosen residue, with
